@@ -2,5 +2,18 @@ from stages import beaconnet
 
 
 def run(ctx):
-    for sch in beaconnet.schemes_for(ctx, 1):
+    q = ctx.quick
+    # design level: the transition to the reshared group (BeaconReshare.tla)
+    ctx.model_check("MC_BeaconReshare", "MC_BeaconReshare_safety.cfg", timeout=600)
+    r = ctx.model_check("MC_BeaconReshare", "MC_BeaconReshare_race.cfg", expect_ok=False, timeout=300)
+    ctx.notes.append("MC_BeaconReshare_race (vault switch may run late): %s (named deviation F42; replayed gated as scenario reshare-switch-race)"
+                     % (r.violated or "holds"))
+    if not q:
+        ctx.model_check("MC_BeaconReshare", "MC_BeaconReshare_tup.cfg", timeout=1500)        # liveness, threshold up
+        r2 = ctx.model_check("MC_BeaconReshare", "MC_BeaconReshare_racelive.cfg", expect_ok=False, timeout=1500)
+        ctx.notes.append("MC_BeaconReshare_racelive: %s" % (r2.violated or r2.error or "holds"))
+    schemes = beaconnet.schemes_for(ctx, 1)
+    for sch in schemes:
         beaconnet.run(ctx, "C07", scheme=sch)
+    ctx.assumptions += ["the DKG itself is not run here: the resharing is fabricated (same secret, fresh polynomial) and applied the way production does "
+                        "(TransitionNewGroup on running members, joiners started in catch-up mode with the new group, restarted nodes load the new group/share)"]
